@@ -54,6 +54,8 @@ def subcritical_T(backend_name, r, margin=0.02):
 
 # shipped records whose stored molar mass differs from the backend's (by 35 % and 2e-4): whichever of the two a conversion uses shows
 STORED_VS_BACKEND_CONTEXTS = [("difluoromethane", 250.0), ("fluorine", 85.0)]
+# the last two percent below the critical temperature (where equations of state are stiff and shortcuts tempting)
+NEAR_CRITICAL_CONTEXTS = [("nitrogen", 124.3), ("carbon dioxide", 300.2)]
 
 
 USER_VAPOUR = "verif-user-vapour"
@@ -79,7 +81,7 @@ def reference_fluid(ads):
 def contexts(tier, seed, n_quick=5):
     """(adsorbate name, temperature K) pairs."""
     r = rng(seed, "ctx")
-    out = list(FIXED_CONTEXTS[:n_quick]) + list(STORED_VS_BACKEND_CONTEXTS)
+    out = list(FIXED_CONTEXTS[:n_quick]) + list(STORED_VS_BACKEND_CONTEXTS) + list(NEAR_CRITICAL_CONTEXTS)
     ads = backend_adsorbates()
     if tier == "quick":
         for _ in range(2):
